@@ -60,6 +60,24 @@ package limiter
 //@   callsite LoadOrCompute: [C15:bucket-per-masked-subnet] arg1 == gk
 //@   callsite AllowN: [C15:entry-locked-and-stamped] held && arg0 == ge.l && ge.lastSeen == now && arg1 == now && arg2 == n
 
+// The collector's visit of one entry. An entry is forgotten only when nothing is lost by forgetting it: it has
+// not been seen since the deadline and its bucket has refilled to the whole burst, so that the fresh entry the
+// next request creates decides exactly as the old one would have (otherwise the subnet gets a second burst).
+//@ closure ClientLimiter.gc$1
+//@   props C15
+//@   requires cl != nil && cl.m != nil && value != nil && value.l != nil
+//@   ghost held bool = false
+//@   ghost gAt time.Time = nil
+//@   ghost nTok int = 0
+//@   oncall Lock: held = true
+//@   oncall Unlock: held = false
+//@   oncall TokensAt?: nTok = nTok + 1
+//@   oncall TokensAt?: gAt = arg1
+//@   modifies *
+//@   ensures !held
+//@   callsite Delete?: [C15:forgetting-an-entry-loses-no-debt] arg1 == key && nTok >= 1 && tokensAt(value.l, gAt) >= float64(burstOf(value.l))
+//@   callsite TokensAt?: [C15:bucket-read-under-the-entry-lock] held && arg0 == value.l
+
 //@ func (cl *ClientLimiter) Close() (err error)
 //@   trusted
 //@   requires cl != nil
